@@ -144,6 +144,19 @@ fn makers() -> Vec<Form> {
                 )],
             ),
         }),
+        // a counter whose step is a global read through two enclosing frames: a later assignment / re-definition of the
+        // global must be seen by the next call
+        Form::Define(Def {
+            name: "mk-stepper".into(),
+            sugar: true,
+            value: lam(
+                &[],
+                vec![Expr::Let(
+                    vec![("n".into(), Expr::Int(0))],
+                    body1(Expr::Let(vec![("pad".into(), Expr::Int(0))], body1(lam(&[], vec![inc("n", app("+", vec![var("g1"), var("pad")])), var("n")])))),
+                )],
+            ),
+        }),
         // assignment to a parameter must not leak
         dp("bump-param", &["x"], vec![inc("x", Expr::Int(1)), var("x")]),
         // write through a vector received as argument
@@ -182,7 +195,17 @@ pub fn gen_history(ch: &mut Chooser, max_steps: usize) -> History {
             0 => {
                 // instantiate a counter-like closure
                 let n = *ch.pick(&counters);
-                match ch.below(6) {
+                match ch.below(7) {
+                    6 => {
+                        // (needs the global g1: defined here if it is not yet)
+                        if !h.names.iter().any(|(m, _)| m == "g1") {
+                            h.forms.push(d("g1", Expr::Int(ch.range(1, 5) as i32)));
+                            h.names.push(("g1".into(), Kind::Global));
+                        }
+                        h.forms.push(d(n, app("mk-stepper", vec![])));
+                        h.names.push((n.into(), Kind::Counter));
+                        h.label("closure-reads-a-global-that-changes");
+                    }
                     5 => {
                         // two accumulators made by consecutive rounds of one self-tail-calling loop
                         let n2 = *ch.pick(&counters);
